@@ -8,7 +8,7 @@ AREA = "c09"
 LEAN_PROPS = "Litep2pVerif.Props.C09"
 THEOREMS = ["held_not_closed", "idle_closed_at", "idle_run_closed_at", "poll_settles", "ping_no_prolong", "primary_secondary",
             "inbound_negotiation_holds_connection",
-            "half_closed_substream_holds_connection"]
+            "half_closed_substream_holds_connection", "fallback_name_substream_holds_connection"]
 CONSTS = ["KEEP_ALIVE_TIMEOUT_SECS"]
 CONST_TABLE = [
     ("KEEP_ALIVE_TIMEOUT_SECS", "src/transport/mod.rs",
@@ -33,7 +33,11 @@ MANIFEST = {
             "through negotiation, delivery and the substream's life, disabling the idle exit; "
             "half_closed_substream_holds_connection: shutting down the write half of a held substream (Sink::poll_close / "
             "AsyncWrite::poll_shutdown) keeps the object and its lifetime permit, which keeps the idle exit disabled across "
-            "every transition until the owner drops the object. Tie: the REAL TcpConnection::start "
+            "every transition until the owner drops the object; fallback_name_substream_holds_connection: the name -> keep-alive "
+            "map of ProtocolSet::new gives every name of a protocol (main or fallback) that protocol's setting and "
+            "report_substream_open reports it to that protocol with the fallback field, so a substream negotiated under a "
+            "fallback name is delivered to its protocol with the same permits and, for a keep-alive protocol, keeps the idle "
+            "exit disabled in every state in which it exists. Tie: the REAL TcpConnection::start "
             "loop over loopback TCP with remote substreams whose negotiation is stretched across the expiry of every handle "
             "and with substreams half-closed by the local protocol and read from afterwards (tcploop area, checker mode), and "
             "several real TransportServices (keep-alive Yes/No) sharing real ProtocolSets run under a paused tokio clock "
@@ -50,6 +54,9 @@ MANIFEST = {
     "design_ref": "DESIGN.md §7 C09",
 }
 RULE = ("tcploop: fixed, negotiation-spanning (inbound header-only / stalled outbound across the release of every handle), race "
+        "fallback names (protocols installed with 1-2 fallback names; the remote proposes <p>.f<k>, also after a header-only open and "
+        "names the protocol does not have; a remote that only knows the first fallback name answers our requests; then every "
+        "handle is released, the substream half-closed / dropped / kept), "
         "half-closed held substreams (half_close before/after the release of every handle, read_sub, then dropped / kept / "
         "remote close), accept-path and small-channel variants, "
         "and seeded random operation sequences on the real TcpConnection loop, observations checked against the permit-aware "
